@@ -22,25 +22,158 @@ theorem array_refines_list_step (c : Codec V) (vo : ValOps V) (hL : 0 < c.w) (hw
     (op : Op V) (d : Bits) (hop : admissible c vo op = true) :
     sameOutcome (arrStep c vo op d).res (listStep c vo op (absState c d)).2 ∧
     absState c (arrStep c vo op d).data = (listStep c vo op (absState c d)).1 := by
-  sorry
+  unfold absState
+  cases op with
+  | len =>
+    simp only [arrStep, listStep, sameOutcome, len_eq c d, and_self]
+  | get i =>
+    simp only [arrStep, listStep, getItem_refines c hL d i]
+    cases Py.getIndex (items c d) i <;> simp [sameOutcome]
+  | getSlice s e st =>
+    simp only [arrStep, listStep]
+    obtain ⟨h1, _⟩ := getSlice_refines c hL d s e st
+    cases hg : getSlice c d s e st with
+    | error er =>
+      rw [hg] at h1
+      simp only [Except.map] at h1
+      rw [← h1]
+      simp [sameOutcome]
+    | ok r =>
+      rw [hg] at h1
+      simp only [Except.map] at h1
+      rw [← h1]
+      simp [sameOutcome, tolist_eq_items c hL r]
+  | set i v =>
+    simp only [arrStep, listStep]
+    cases hf : fits c v with
+    | true =>
+      simp only [if_true]
+      exact mut_step c d (setItem c d i v) _ (setItem_refines c hL hwf d i v hf) (setItem_trailing c hL hwf d i v)
+        (setItem_error_unchanged c d i v)
+    | false =>
+      obtain ⟨e, he⟩ := setItem_rejects c d i v hf
+      simp only [Bool.false_eq_true, if_false]
+      exact rejected_step c d (setItem c d i v) e .value he (setItem_error_unchanged c d i v e he)
+  | setSlice s e st vals =>
+    simp only [arrStep, listStep]
+    have hv : vals.all (fits c) = true := by simpa [admissible] using hop
+    simp only [hv, if_true]
+    exact mut_step c d (setSlice c d s e st vals) _ (setSlice_refines c hL hwf d s e st vals hv)
+      (setSlice_trailing c hL hwf d s e st vals hv) (setSlice_error_unchanged c hL hwf d s e st vals hv)
+  | del i =>
+    simp only [arrStep, listStep]
+    exact mut_step c d (delItem c d i) _ (delItem_refines c hL d i) (delItem_trailing c hL d i)
+      (delItem_error_unchanged c d i)
+  | delSlice s e st =>
+    simp only [arrStep, listStep]
+    exact mut_step c d (delSlice c d s e st) _ (delSlice_refines c hL d s e st) (delSlice_trailing c hL d s e st)
+      (delSlice_error_unchanged c d s e st)
+  | append v =>
+    simp only [arrStep, listStep]
+    by_cases ht : trailing c.w d = []
+    · cases hf : fits c v with
+      | true =>
+        obtain ⟨h1, h2⟩ := append_refines c hL hwf d v hf ht
+        obtain ⟨hr, hi⟩ := view_ok c _ () _ h1
+        simp [ht, unitObs, hr, sameOutcome, hi, h2]
+      | false =>
+        obtain ⟨⟨e, he⟩, hd⟩ := append_rejects c hL d v (Or.inr hf)
+        simp [ht, unitObs, he, sameOutcome, hd]
+    · obtain ⟨⟨e, he⟩, hd⟩ := append_rejects c hL d v (Or.inl ht)
+      simp [ht, unitObs, he, sameOutcome, hd]
+  | extend vals =>
+    simp only [arrStep, listStep]
+    have hv : vals.all (fits c) = true := by simpa [admissible] using hop
+    by_cases ht : trailing c.w d = []
+    · obtain ⟨h1, h2⟩ := extendIter_refines c hL hwf d vals hv ht
+      obtain ⟨hr, hi⟩ := view_ok c _ () _ h1
+      simp [ht, hv, unitObs, hr, sameOutcome, hi, h2]
+    · obtain ⟨he, hd⟩ := extendIter_trailing_rejects c hL d vals ht
+      simp [ht, unitObs, he, sameOutcome, hd]
+  | insert i v =>
+    simp only [arrStep, listStep]
+    cases hf : fits c v with
+    | true =>
+      obtain ⟨h1, h2⟩ := insert_refines c hL hwf d i v hf
+      obtain ⟨hr, hi⟩ := view_ok c _ () _ h1
+      simp [unitObs, hr, sameOutcome, hi, h2]
+    | false =>
+      obtain ⟨⟨e, he⟩, hd⟩ := insert_rejects c d i v hf
+      simp [unitObs, he, sameOutcome, hd]
+  | pop i =>
+    simp only [arrStep, listStep]
+    have h1 := pop_refines c hL d i
+    have h2 := pop_trailing c hL d i
+    cases hp : PyL.pop (items c d) i with
+    | error e =>
+      rw [hp] at h1
+      have hr := view_err c _ e h1
+      have hd := pop_error_unchanged c d i e hr
+      simp [hr, sameOutcome, hd]
+    | ok r =>
+      obtain ⟨x, l'⟩ := r
+      rw [hp] at h1
+      obtain ⟨hr, hi⟩ := view_ok c _ x l' h1
+      simp [hr, sameOutcome, hi, h2]
+  | reverse =>
+    simp only [arrStep, listStep]
+    by_cases ht : trailing c.w d = []
+    · obtain ⟨h1, h2⟩ := reverse_refines c hL d ht
+      obtain ⟨hr, hi⟩ := view_ok c _ () _ h1
+      simp [ht, unitObs, hr, sameOutcome, hi, h2]
+    · obtain ⟨he, hd⟩ := reverse_trailing_rejects c hL d ht
+      simp [ht, unitObs, he, sameOutcome, hd]
+  | count v =>
+    simp only [arrStep, listStep]
+    have hn : vo.isnan v ≠ .ok true := by
+      intro h
+      simp [admissible, h] at hop
+    rw [count_refines c vo hL d v hn]
+    simp [sameOutcome]
+  | iter =>
+    simp only [arrStep, listStep, iter_eq_items c hL d]
+    simp [sameOutcome]
+  | tolist =>
+    simp only [arrStep, listStep, tolist_eq_items c hL d]
+    simp [sameOutcome]
 
 /-- The list model never changes the trailing bits, hence neither does the Array. -/
 theorem listStep_trailing (c : Codec V) (vo : ValOps V) (op : Op V) (s : LState V) :
     (listStep c vo op s).1.t = s.t := by
-  sorry
+  cases op <;> simp only [listStep, lmut] <;> (repeat' split) <;> rfl
 
 /-- Whole histories, by induction over the operation list. -/
 theorem array_refines_list (c : Codec V) (vo : ValOps V) (hL : 0 < c.w) (hwf : c.WF)
     (ops : List (Op V)) (d : Bits) (hadm : Admissible c vo ops d) :
     List.Forall₂ sameOutcome (arrRun c vo ops d).2 (listRun c vo ops (absState c d)).2 ∧
     absState c (arrRun c vo ops d).1 = (listRun c vo ops (absState c d)).1 := by
-  sorry
+  induction ops generalizing d with
+  | nil => exact ⟨List.Forall₂.nil, rfl⟩
+  | cons op ops ih =>
+    unfold Admissible admissibleRun at hadm
+    rw [Bool.and_eq_true] at hadm
+    obtain ⟨h1, h2⟩ := array_refines_list_step c vo hL hwf op d hadm.1
+    obtain ⟨h3, h4⟩ := ih (arrStep c vo op d).data hadm.2
+    simp only [arrRun, listRun]
+    rw [← h2]
+    exact ⟨List.Forall₂.cons h1 h3, h4⟩
 
 /-- `trailing_preserved`: after any admissible history the trailing bits are the initial ones. -/
 theorem trailing_preserved (c : Codec V) (vo : ValOps V) (hL : 0 < c.w) (hwf : c.WF)
     (ops : List (Op V)) (d : Bits) (hadm : Admissible c vo ops d) :
     trailing c.w (arrRun c vo ops d).1 = trailing c.w d := by
-  sorry
+  have h := (array_refines_list c vo hL hwf ops d hadm).2
+  have ht : ∀ (ops : List (Op V)) (s : LState V), (listRun c vo ops s).1.t = s.t := by
+    intro ops
+    induction ops with
+    | nil => intro s; rfl
+    | cons op ops ih =>
+      intro s
+      simp only [listRun]
+      rw [ih, listStep_trailing]
+  have := congrArg LState.t h
+  rw [ht] at this
+  exact this
 
 /-! ### non-vacuity -/
 example :
